@@ -12,6 +12,10 @@
 (*   labels  : service/queryLabelsService.go GenericLabelReq / Series      *)
 (*   tags    : controller/tempoController.go Tags / Values / Search        *)
 (*   trace   : controller/tempoController.go Trace (json branch)           *)
+(*   traceql : controller/tempoController.go Search, TraceQL branch: the   *)
+(*             only list writer that ranges over a channel of BATCHES      *)
+(*             (chan []TraceInfo) with a nested loop over each batch and   *)
+(*             one comma counter across all batches                        *)
 (*                                                                         *)
 (* INPUT  = a sequence of channel batches; an entry is a row (fp in 0..2), *)
 (*          an EOF marker (Err == io.EOF) or an error marker (Err != nil). *)
@@ -33,7 +37,8 @@ CONSTANTS
 
 SeriesWriters == {"streams", "tail", "matrix"}
 ListWriters   == {"labels", "tags", "trace"}
-WriterNames   == SeriesWriters \cup ListWriters \cup {"vector"}
+BatchListWriters == {"traceql"}                     \* list writers fed by a channel of batches (nested loop)
+WriterNames   == SeriesWriters \cup ListWriters \cup BatchListWriters \cup {"vector"}
 Fps           == 0..2
 
 Writers       == DOMAIN Bounds                      \* the writers explored
@@ -83,6 +88,7 @@ Hdr(wr) ==
       [] wr = "tail"   -> <<P("{"), K("streams"), P("[")>>
       [] wr = "labels" -> <<P("{"), K("status"), V("success", 0), P(","), K("data"), P("[")>>
       [] wr = "tags"   -> <<P("{"), K("list"), P("[")>>
+      [] wr = "traceql" -> <<P("{"), K("traces"), P("[")>>
       [] wr = "trace"  -> <<P("{"), K("resourceSpans"), P("["), P("{"), K("resource"), P("{"), K("attributes"), P("["),
                             P("{"), K("key"), V("collector", 0), P(","), K("value"), P("{"), K("stringValue"),
                             V("qryn", 0), P("}"), P("}"), P("]"), P("}"), P(","),
@@ -90,7 +96,7 @@ Hdr(wr) ==
 
 Ftr(wr) ==
     CASE wr \in {"streams", "matrix", "vector"} -> <<P("]"), P("}"), P("}")>>
-      [] wr \in {"tail", "labels", "tags"}      -> <<P("]"), P("}")>>
+      [] wr \in {"tail", "labels", "tags", "traceql"} -> <<P("]"), P("}")>>
       [] wr = "trace"  -> <<P("]"), P("}"), P("]"), P("}"), P("]"), P("}")>>
 
 ErrTail == <<P("]"), P("}"), P("}")>>      \* onErr(): Str: "]}}"
@@ -164,6 +170,7 @@ VecOrderOK(rs, order) == /\ \A x, y \in 1..Len(order) : x # y => order[x] # orde
 
 Doc == CASE w \in SeriesWriters -> SeriesDoc(w, Rows(hist))
          [] w \in ListWriters   -> ListDoc(w, Rows(hist))
+         [] w \in BatchListWriters -> ListDoc(w, Rows(hist))   \* the batch boundaries leave no trace in the document
          [] w = "vector"        -> VecDoc(Rows(hist), ord)
 
 (* the class of inputs on which a writer without the `i == 0 ||` guard misbehaves: lastFp starts at 0 *)
@@ -190,6 +197,7 @@ Entries(wr) ==
                                  \cup {[kind |-> k, fp |-> 0, ts |-> 0, id |-> id] : k \in {"eof", "err"}}
       [] wr \in ListWriters   -> {[kind |-> "row", fp |-> 0, ts |-> id, id |-> id],
                                   [kind |-> "err", fp |-> 0, ts |-> 0, id |-> id]}
+      [] wr \in BatchListWriters -> {[kind |-> "row", fp |-> 0, ts |-> id, id |-> id]}   \* chan []TraceInfo carries no markers
 
 Push(e) == hist' = [hist EXCEPT ![Len(hist)] = Append(@, e)] /\ fed' = fed + 1
 
@@ -230,6 +238,14 @@ ListIter(e) ==
          /\ i' = i + 1
          /\ UNCHANGED pc
 
+(* one iteration of the INNER loop of the TraceQL branch of Search:                                        *)
+(*   for traces := range ch { for _, trace := range traces { if i != 0 { "," }; item; i++ } }             *)
+(* the outer loop is Cut (the next `traces := <-ch`, possibly an empty slice): it writes nothing and keeps i *)
+BatchListIter(e) ==
+    /\ out' = out \o (IF i # 0 THEN <<P(",")>> ELSE <<>>) \o <<V("item", e.id)>>
+    /\ i' = i + 1
+    /\ UNCHANGED pc
+
 (* inputs outside the property's domain (an error marker; an entry after an EOF marker in the same batch) are explored *)
 (* to a smaller depth: they only serve the conformance of the spec with the code                                  *)
 Outside(e) == LET cur == hist[Len(hist)] IN
@@ -243,6 +259,7 @@ Feed ==
         /\ CASE w \in SeriesWriters -> SeriesIter(e) /\ UNCHANGED <<lv, ord>>
              [] w = "vector"        -> VecIter(e) /\ UNCHANGED <<lastFp, i, j, ord>>
              [] w \in ListWriters   -> ListIter(e) /\ UNCHANGED <<lastFp, j, brk, lv, ord>>
+             [] w \in BatchListWriters -> BatchListIter(e) /\ UNCHANGED <<lastFp, j, brk, lv, ord>>
     /\ UNCHANGED w
 
 (* the next `entries := <-out` *)
@@ -256,7 +273,7 @@ Cut ==
 Close ==
     /\ pc = "loop"
     /\ CASE w \in SeriesWriters -> pc' = "done" /\ out' = out \o (IF i > 0 THEN ObjClose ELSE <<>>) \o Ftr(w)
-         [] w \in ListWriters   -> pc' = "done" /\ out' = out \o Ftr(w)
+         [] w \in ListWriters \cup BatchListWriters -> pc' = "done" /\ out' = out \o Ftr(w)
          [] w = "vector"        -> pc' = "emit" /\ out' = out
     /\ UNCHANGED <<w, fed, hist, lastFp, i, j, brk, lv, ord>>
 
